@@ -16,6 +16,7 @@ import (
 	"pgregory.net/rapid"
 
 	"github.com/free5gc/go-upf/internal/forwarder"
+	"github.com/free5gc/go-upf/internal/verif/flowgen"
 	"github.com/free5gc/go-upf/internal/verif/fullstack"
 	"github.com/free5gc/go-upf/internal/verif/simkernel"
 	"github.com/free5gc/go-upf/internal/verif/stack"
@@ -102,16 +103,16 @@ func all(ns []*Node, out *[]*Node) {
 
 // Msg is a PFCP datagram as header fields + IE tree (+ optional final truncation).
 type Msg struct {
-	Flags   uint8   `json:"flags"`
-	Type    uint8   `json:"type"`
-	LenSet  int     `json:"len_set"` // -1: correct
-	SEID    uint64  `json:"seid"`
-	Seq     uint32  `json:"seq"`
-	IEs     []*Node `json:"ies"`
-	Trunc   int     `json:"trunc"`  // -1: none; else cut the datagram to this many bytes
-	Raw     []byte  `json:"raw,omitempty"` // raw layer: used instead of everything above
-	From    int     `json:"from"`   // socket reference
-	Muts    []string `json:"muts,omitempty"`
+	Flags  uint8    `json:"flags"`
+	Type   uint8    `json:"type"`
+	LenSet int      `json:"len_set"` // -1: correct
+	SEID   uint64   `json:"seid"`
+	Seq    uint32   `json:"seq"`
+	IEs    []*Node  `json:"ies"`
+	Trunc  int      `json:"trunc"`         // -1: none; else cut the datagram to this many bytes
+	Raw    []byte   `json:"raw,omitempty"` // raw layer: used instead of everything above
+	From   int      `json:"from"`          // socket reference
+	Muts   []string `json:"muts,omitempty"`
 }
 
 func (m *Msg) bytes() []byte {
@@ -262,10 +263,33 @@ func mutate(t *rapid.T, m *Msg, witness uint64) {
 			idNodes = append(idNodes, n)
 		}
 	}
-	k := rapid.SampledFrom([]string{"id-value", "id-value", "id-value", "id-value", "deep-field", "deep-field", "deep-field", "deep-field", "deep-trunc", "deep-trunc", "hdr-flags", "hdr-len", "hdr-type", "hdr-seid", "hdr-seq", "ie-type", "ie-len-delta", "ie-len-set", "ie-trunc", "ie-extend",
+	var sdf []*Node
+	for _, n := range nodes {
+		if n.Type == ie.SDFFilter && !n.Grouped {
+			sdf = append(sdf, n)
+		}
+	}
+	k := rapid.SampledFrom([]string{"sdf-text", "sdf-text", "sdf-text", "id-value", "id-value", "id-value", "id-value", "deep-field", "deep-field", "deep-field", "deep-field", "deep-trunc", "deep-trunc", "hdr-flags", "hdr-len", "hdr-type", "hdr-seid", "hdr-seq", "ie-type", "ie-len-delta", "ie-len-set", "ie-trunc", "ie-extend",
 		"ie-pattern", "ie-flipbit", "ie-dup", "ie-del", "ie-swap", "ie-nest", "ie-empty", "trunc", "ie-type", "ie-len-delta", "ie-pattern", "ie-flipbit"}).Draw(t, "mut")
 	m.Muts = append(m.Muts, k)
 	switch k {
+	case "sdf-text":
+		// a well-formed SDF Filter IE whose flow description is a valid rule or a near miss of one (token dropped,
+		// text cut after any token, broken ports / addresses ...): reaches the driver's flow-description parser
+		if len(sdf) > 0 {
+			n := sdf[rapid.IntRange(0, len(sdf)-1).Draw(t, "sdf")]
+			r := flowgen.GenRule(t)
+			txt := r.Text()
+			switch rapid.IntRange(0, 4).Draw(t, "how") {
+			case 0:
+			case 1, 2:
+				txt = flowgen.Mutate(t, r)
+			default:
+				toks := r.Tokens()
+				txt = strings.Join(toks[:rapid.IntRange(0, len(toks)-1).Draw(t, "cut")], " ")
+			}
+			n.Val = append([]byte{0x01, 0x00, byte(len(txt) >> 8), byte(len(txt))}, txt...)
+		}
 	case "id-value":
 		// a well-formed message naming a rule id the session does not have (or the extreme values of the id space)
 		if len(idNodes) > 0 {
@@ -404,10 +428,10 @@ type Case struct {
 }
 
 type result struct {
-	v          *vcore.Violation
-	parsed     int
-	types      []string
-	excluded   string
+	v        *vcore.Violation
+	parsed   int
+	types    []string
+	excluded string
 }
 
 func run(c Case) (res result) {
